@@ -95,6 +95,7 @@ PROPS = {
         "cone": ["gen/Tables.v", "model/Parser.v", "model/Value.v", "model/Eval.v", "proofs/ParserProofs.v", "proofs/OperatorProofs.v", "proofs/EvalProofs.v", "props/C06.v"],
         "trusted_base": COMMON_TB + [
             "model/Parser.v (Pratt loop over the precedence table regenerated from parser/precedences.go) and model/Value.v (typed operator functions) transcribe the code; floats are Coq primitive floats (IEEE binary64); regexp matching is an oracle (not modelled)",
+            "C06_nan_comparisons uses three axioms DECLARED BY THE STANDARD LIBRARY (Coq.Floats.FloatAxioms: eqb_spec, ltb_spec, leb_spec - the specification of the primitive float comparisons against SpecFloat); no other theorem uses a logical axiom",
         ],
         "assumptions": ["combinations the README leaves open are excluded by name: bool+bool, comparison of a string with a non-string, bool with a non-bool operand"],
         "explanation": "precedence-table and operator theorems on the model + exhaustive depth-1 and random deeper trees judged against a Go reference evaluator in three parenthesisations",
